@@ -199,6 +199,16 @@ def kernel_lemmas(rep, timeout):
         for k in range(3):
             obs.append(oblig.Ob("code kernel == Katz-Plotkin segment formula [%d]" % k, lhs=pa.result[0, k], rhs=cx[k] * fac, assume=pa.conds + [gt(c2, 0)],
                                 meta={"family": "finite-vortex kernel equals the textbook Biot-Savart segment formula"}))
+    # ... and the branch that returns 0 (a point on the extension of its own segment) is confined to the documented band
+    # |r1||r2| + r1.r2 <= 1e-10 m^2: outside it the segment must contribute (the textbook formula above)
+    from fractions import Fraction as _Fr
+    from symoas.sym import const as _const
+
+    den_ref = na * nb + sum((a[k] * b[k] for k in range(3)), ZERO)
+    for pa in pf:
+        if any((not v) for d, v, f in pa.decisions if not f):
+            obs.append(oblig.Ob("segment ignored only inside the documented band, path %s" % pa.label(), cond=gt(den_ref, _const(_Fr(1, 10**10))), assume=pa.conds,
+                                meta={"family": "a vortex segment is ignored only where |r1||r2| + r1.r2 <= 1e-10 m^2 (the documented tolerance)", "band": True}))
     # semi-infinite leg from X along u (|u| = 1): (u x r) / (|r| (|r| - u.r)) / 4 pi
     rr = list(r2[0])
     uu = list(u[0])
@@ -210,6 +220,10 @@ def kernel_lemmas(rep, timeout):
                             meta={"family": "semi-infinite vortex kernel equals the textbook limit form"}))
     def kern_rp(ob, env):
         """the real kernels on floats against the textbook formulas and their symmetries"""
+        if ob.meta.get("band"):
+            r1v, r2v = np.array([[0.5, 1e-3, 0.0]]), np.array([[-0.5, 1e-3, 0.0]])
+            val = np.asarray(em._compute_finite_vortex(r1v, r2v), dtype=float)
+            return not np.any(np.abs(val) > 0), "point 1 mm beside the middle of a 1 m segment: kernel returns %s" % (val.ravel(),)
         rng = np.random.default_rng(8)
         bad = []
         for t in range(4):
